@@ -48,7 +48,7 @@ Print Assumptions min_op_minimal.
    of an ops_less-minimal one; otherwise pick a qchildren_less-minimal queued
    child [best], let [descend] decide between [best] and the worker's sticky
    child at this level, and continue there.  Every outcome the model's search
-   admits lies in the policy ... *)
+   allows lies in the policy ... *)
 Theorem pick_minimal : forall fuel s i lk lim st r res,
   In res (next_candidates fuel s i lk lim st r) -> policy s i lk lim st r res.
 Proof. exact next_candidates_policy. Qed.
